@@ -198,11 +198,29 @@ def run(R):
                 okr = True
         R.check(okr, 'C02.R4', 'response-error-stored', site(pn), 'the status reported by %s() is stored as State::Error(Some(e)) for the next iteration' % rname)
         ib, it = rs.call1(name='infer_grpc_status')
+        # for a response, the "fine" outcome is only ever what infer_grpc_status said: every path of a Direction::Response call to a
+        # return passes through the consultation (a shortcut such as `trailers.is_none() && http.is_success() => Ok` turns a 204
+        # without grpc-status into a clean end)
+        meta_r = {}
+        byp = []
+        for cons_, path_ in mirlib.path_rows(rs, meta=meta_r, relevant=lambda sub_: sub_.startswith('discr(') and sub_.rstrip(')').endswith('.direction')):
+            vw_ = cons_view(cons_, meta_r)
+            is_resp = any(v_ == 'Response' for k_, v_ in vw_.items())
+            if is_resp and ib not in path_:
+                byp.append(path_[-1])
+        R.check(not byp, 'C02.R4', 'response-always-consults-infer', site(rs, byp[0]) if byp else site(rs, ib), 'every Direction::Response path of %s() goes through infer_grpc_status: %d path(s) bypass it' % (rname, len(byp)))
         a0, a1 = rs.origin(it['args'][0]), rs.origin(it['args'][1])
         R.check(mentions_field(a0, 'trailers') and is_call(strip_refs(a0), name='as_ref'), 'C02.R4', 'infer-from-trailers', site(rs, ib), 'trailers argument = %s' % show(a0))
         R.check(term_contains(a1, lambda x: x and x[0] == 'variant' and x[2] == 'Response') and mentions_field(a1, 'direction'), 'C02.R4', 'infer-with-http-status', site(rs, ib), 'status argument = %s' % show(a1))
         pfr = tonic.body('decode::StreamingInner::poll_frame')
         R.saw(pfr)
+        # whatever poll_frame reports comes from polling the body in this very call: `is_end_stream()` of a wrapping body (the grpc-web
+        # client adapter) may be true while it still holds trailers it has not handed out
+        bp = [(bb_, t_) for bb_, t_ in pfr.calls(name='poll_frame') if 'Body' in (t_.get('fn') or '') and mentions_field(pfr.origin(t_['args'][0]), 'body')]
+        readyw = [bb_ for bb_ in writers_of(pfr, 0) if any(w_[0] == 'variant' and w_[2] == 'Ready' for w_ in block_writes(pfr, bb_, 0))]
+        okbp = len(bp) == 1 and bool(readyw) and all(pfr.dominates(bp[0][0], bb_) for bb_ in readyw)
+        R.check(okbp, 'C02.R4', 'body-polled-before-any-outcome', site(pfr, bp[0][0]) if bp else site(pfr), 'the body is polled before any Ready(..) outcome is produced: %r (%d outcome sites)' % (okbp, len(readyw)))
+        R.check(not pfr.calls(name='is_end_stream'), 'C02.R4', 'no-is_end_stream-shortcut', site(pfr), 'poll_frame does not decide the end of the body from Body::is_end_stream()')
         ex = pfr.calls(name='extend')
         R.check(len(ex) == 1 and mentions_call(pfr.origin(ex[0][1]['args'][1]), name='into_trailers'), 'C02.R4', 'trailers-accumulate', site(pfr), 'a second trailers frame extends the first (extend sites: %d)' % len(ex))
         wr = [(bb, i) for bb, i, s in mirlib.assignments(pfr, lambda s: mirlib.place_fields(s['p'])[-1:] == ['trailers'])]
